@@ -377,21 +377,24 @@ func authfileCmd(args []string) error {
 	}
 	if *replay != "" {
 		err := readLines(*replay, func(line []byte) error {
-			var e struct {
+			var op struct {
 				Op string `json:"op"`
-				afCase
 			}
-			if err := json.Unmarshal(line, &e); err != nil {
+			if err := json.Unmarshal(line, &op); err != nil {
 				return fmt.Errorf("replay: %v", err)
 			}
-			if e.Op != "reset" {
+			if op.Op != "reset" {
 				return nil
 			}
-			if *decodes > e.Decodes {
-				e.Decodes = *decodes
+			var cs afCase
+			if err := json.Unmarshal(line, &cs); err != nil {
+				return fmt.Errorf("replay: %v", err)
+			}
+			if *decodes > cs.Decodes {
+				cs.Decodes = *decodes
 			}
 			id++
-			return r.runCase(id, e.afCase)
+			return r.runCase(id, cs)
 		})
 		if err != nil {
 			return err
